@@ -144,6 +144,71 @@ CHECKS = {
              "gffutils is not decided (third-party reader).",
         design="DESIGN.md section 4, C11",
     ),
+    "C12": dict(
+        technique="interpretation of the GenBank writer's record construction (Biopython records modelled as plain data) + "
+                  "structural writer/parser agreement of feature-type tables, qualifier keys and parse pipelines",
+        text="gene_to_feature / transcripts_to_feature / add_cds_feature / feature_intervals_to_features and "
+             "Location.to_biopython are interpreted for generated gene models x flavour x update_translations: record types per "
+             "flavour, locations with exactly the source blocks and strand, identifiers in qualifiers, /translation equal to the "
+             "reference translation under the flavour's table. Structural: GENBANK_GENE_FEATURES vs enums, keys the parser "
+             "reads for the recovered attributes vs keys the writer stores, identical stages of the three parse() pipelines.",
+        note="Trusted: CPython ast, sa/interp.py, the Biopython record model in sa/rules/c12.py. SeqIO's file syntax and reader are "
+             "third-party and not analysed, so the file round trip and parser-mode agreement on content are not decided. Known "
+             "finding: /codon_start is never written.",
+        design="DESIGN.md section 4, C12",
+    ),
+    "C13": dict(
+        technique="interpretation of variant application and incorporate_variants against a literal string-editing oracle + "
+                  "structural groupby-sortedness of the VCF reader",
+        text="alternative_genomic_sequence (single variant and collections of 1-3 variants: SNV / insertion / deletion, padded, "
+             "unpadded, flush with block boundaries), parent_with_alternative_sequence and incorporate_variants on features / "
+             "transcripts (single / multi-block, both strands) are interpreted on chromosome and offset chunk and compared with "
+             "literal substitution; dictionary round trips keep the parent; VCF grouping is checked structurally.",
+        note="Trusted: CPython ast, sa/interp.py, oracle in sa/rules/c13.py. The vcf package is absent, the VCF reader is only "
+             "analysed structurally. Known findings: sequential lift-over with several length-changing variants; unsorted "
+             "CHROM grouping.",
+        design="DESIGN.md section 4, C13",
+    ),
+    "C17": dict(
+        technique="interpretation of collection_to_tbl (random replaced by a seeded stand-in); text parsed by an independent "
+                  "5-column reader and compared with an oracle from model and genome",
+        text="For generated collections x flavour x translation table the .tbl text is produced by interpretation and parsed: "
+             "header, feature sequence per flavour, merged source blocks as 1-based inclusive intervals 5'->3', '<' / '>' marks, "
+             "codon_start, pseudo, unique stepping locus tags, identical output for equal seeds (0 included).",
+        note="Trusted: CPython ast, sa/interp.py, reference walker of C05, parser in sa/rules/c17.py.",
+        design="DESIGN.md section 4, C17",
+    ),
+    "C18": dict(
+        technique="interpretation of extract_feature_name_id on every small subset and ordering of recognised keys + "
+                  "enum/set/regex agreement + interprocedural sortedness of the locus-tag groupby input",
+        text="extract_feature_name_id is interpreted for all subsets (<= 3) of the nine recognised keys in every order and three "
+             "spellings with look-alike keys interleaved; extract_feature_types and merge_qualifiers against set semantics; "
+             "tables: lower-cased member names = literal sets = anchored IGNORECASE alternatives, distinct priorities; the "
+             "locus-tag groupby consumes lists that every store fills sorted by locus tag (or order-preserving filters).",
+        note="Trusted: CPython ast, sa/interp.py. Whole-record permutation invariance of GenBank parses (Biopython objects) is "
+             "not decided beyond the sortedness rule. Known finding: rank-0 truthiness.",
+        design="DESIGN.md section 4, C18",
+    ),
+    "C19": dict(
+        technique="interpretation of ~80 systematically corrupted constructions / operations (outcome must be a documented "
+                  "exception, siblings alike) + structural raise discipline, recursion audit and optional-attribute guards",
+        text="Every enumerated corruption (coordinates, counts, frames, parents, alphabets, variants, duplicates, empties, "
+             "undirected strands, window arguments) must end in a BioCantorException subclass / ValueError / TypeError, never in "
+             "an object or an internal error; all raise sites use documented classes; self-recursive functions are classified "
+             "(data-sized recursion is reported); optional constructor attributes guarded consistently.",
+        note="Trusted: CPython ast, sa/interp.py. A general may-raise analysis is out of reach: only the enumerated corruptions "
+             "and the named structural sources of internal errors are decided.",
+        design="DESIGN.md section 4, C19",
+    ),
+    "C20": dict(
+        technique="interpretation of gene / feature-collection / annotation-collection aggregates against an integer oracle",
+        text="Generated child sets (1-3 members, strand mix, coding mix, primary flags none/one/two, ties in CDS and spliced "
+             "length, with and without gene_type; no parent / chromosome / offset chunk) are built by interpretation: span, "
+             "is_coding, feature_types, primary member and its accessors, merged transcript / CDS / feature blocks (also "
+             "chunk-relative), children order and inferred bounds are compared with the oracle.",
+        note="Trusted: CPython ast, sa/interp.py. Known findings: merging children on both strands raises ValueError.",
+        design="DESIGN.md section 4, C20",
+    ),
     "C14": dict(
         technique="interpretation of to_bed12 and BED12.__str__; text decoded by an independent 12-column reader",
         text="For every enumerated transcript (coding placements, non-coding) and feature, both strands, chromosome and chunk "
